@@ -643,3 +643,50 @@ pub fn holding_range(card: u8, size: usize, seed: u64, weights: bool) -> RangeSp
     combos.sort_by_key(|c| (c.0, c.1));
     RangeSpec { combos }
 }
+
+/// "Elimination" tables: seat 0 holds one known combo (x,y); every other seat has 1-3 combos that
+/// contain x or y (dead beside seat 0) plus 1-2 survivors drawn from a pool of five cards, so that
+/// the survivors of different seats often share a card; seats are then shuffled.
+pub fn elimination_config() -> impl Strategy<Value = Config> {
+    (flop_strategy(), 3usize..=5, any::<u64>()).prop_map(|(flop, n, seed)| {
+        let mut deck: Vec<u8> = (0..52u8).filter(|c| !flop.contains(c)).collect();
+        let mut x = mix64(seed);
+        for i in (1..deck.len()).rev() {
+            x = mix64(x);
+            deck.swap(i, (x % (i as u64 + 1)) as usize);
+        }
+        let (kx, ky) = (deck[0], deck[1]);
+        let pool: Vec<u8> = deck[2..7].to_vec();
+        let mut fresh = 7usize;
+        let mut ranges = vec![RangeSpec { combos: vec![{ let p = norm_pair(kx, ky); (p.0, p.1, 1.0) }] }];
+        for _ in 1..n {
+            let mut m = std::collections::BTreeMap::new();
+            x = mix64(x);
+            let dead = 1 + (x % 3) as usize;
+            for d in 0..dead {
+                x = mix64(x);
+                let k = if x & 1 == 0 { kx } else { ky };
+                let o = deck[fresh % deck.len()];
+                fresh += 1;
+                m.insert(norm_pair(k, o), if d == 0 { 1.0f32 } else { 0.5 });
+            }
+            x = mix64(x);
+            let surv = 1 + ((x >> 3) % 2) as usize;
+            for _ in 0..surv {
+                x = mix64(x);
+                let a = pool[(x % 5) as usize];
+                let b = pool[((x >> 8) % 5) as usize];
+                if a != b {
+                    m.insert(norm_pair(a, b), 1.0);
+                }
+            }
+            ranges.push(RangeSpec { combos: m.into_iter().map(|(p, w)| (p.0, p.1, w)).collect() });
+        }
+        // shuffle seats
+        for i in (1..ranges.len()).rev() {
+            x = mix64(x);
+            ranges.swap(i, (x % (i as u64 + 1)) as usize);
+        }
+        Config { flop, ranges, scope: None }
+    })
+}
